@@ -35,7 +35,7 @@ fn meta() -> Meta {
     Meta {
         id: "C15",
         level: "model_checking",
-        rule: "records: every word up to the depth bound over {W(1), W(5), W(N), W(3N), R, F, Reopen (the file still in place), reset_flw onto the same file (append)} x {no rotation, Size(N)+Numbers, Size(N)+TimestampsDirect}; chunks: every sequence of <= 3 (quick) / 4 (thorough) chunks over {empty, a, F, S, LF, ab+LF, F+LF, 0x00, 0xFF 0xFE, 10 KiB, and three chunks of message-capacity+1 bytes ending in S or F}, plus each of the 256 single-byte chunks alone and between two x chunks, with and without rotation; each executed under Direct, BufferDontFlush(4), BufferDontFlush(4096), BufferAndFlush(64), Async{1,4}, Async{2,64}, Async default (async: under the late-writer and the early-writer schedule); states = distinct (rotation config, file-size vector) reached in direct mode; non-trivial = the direct-mode run produced >= 2 files or a chunk that equals a control message is present; a fourth rotation setting compresses every rotated file; for chunk sequences the list of files (names and contents) of every mode equals that of direct mode; reset_flw onto the same file (append) is a letter of the record alphabet",
+        rule: "records: every word up to the depth bound over {W(1), W(5), W(N), W(3N), R, F, Reopen (the file still in place), reset_flw onto the same file (append)} x {no rotation, Size(N)+Numbers, Size(N)+TimestampsDirect}; chunks: every sequence of <= 3 (quick) / 4 (thorough) chunks over {empty, a, F, S, LF, ab+LF, F+LF, 0x00, 0xFF 0xFE, 10 KiB, and three chunks of message-capacity+1 bytes ending in S or F}, plus each of the 256 single-byte chunks alone and between two x chunks, with and without rotation; each executed under Direct, BufferDontFlush(4), BufferDontFlush(4096), BufferAndFlush(64), Async{1,4}, Async{2,64}, Async default (async: under the late-writer and the early-writer schedule); states = distinct (rotation config, file-size vector) reached in direct mode; non-trivial = the direct-mode run produced >= 2 files or a chunk that equals a control message is present; a fourth rotation setting compresses every rotated file; for chunk sequences the list of files (names and contents) of every mode equals that of direct mode; reset_flw onto the same file (append) is a letter of the record alphabet; for chunk sequences with rotation the files of direct mode equal the prediction of the size criterion (an empty chunk, too, goes to the next file when the current one exceeds N)",
         assumptions: vec![
             "N = 12; virtual clock frozen, so names are comparable across modes".into(),
             "asynchronous runs are serialised by the controlled scheduler (two canonical schedules), not free running".into(),
@@ -318,6 +318,32 @@ fn check_chunks(rot: Option<NamingK>, chunks: &[Vec<u8>], out: &mut Out, case: &
         Ok(Ok(o)) => Some(o.files),
         _ => None,
     };
+    // what direct mode leaves must be what the size criterion says: a chunk (an empty one, too)
+    // that arrives while the current file holds more than N bytes goes to the next file
+    if let (Some(_), Some(d)) = (rot, direct_files.as_ref()) {
+        let mut model: Vec<Vec<u8>> = Vec::new();
+        let mut cur: Vec<u8> = Vec::new();
+        for c in chunks {
+            if cur.len() as u64 > N {
+                model.push(std::mem::take(&mut cur));
+            }
+            cur.extend(c);
+        }
+        model.push(cur);
+        let got: Vec<&Vec<u8>> = d.iter().map(|f| &f.1).collect();
+        if got.len() != model.len() || got.iter().zip(model.iter()).any(|(a, b)| *a != b) {
+            let names: Vec<String> = chunks.iter().map(|c| chunk_name(c)).collect();
+            let mut c = case.clone();
+            c["mode"] = json!(format!("{:?}", ModeK::Direct));
+            c["eager"] = json!(false);
+            out.violation(Violation::new(
+                "chunk-files!=size-model",
+                format!("chunks/direct/{}", if chunks.iter().any(Vec::is_empty) { "with-empty-chunk" } else { "no-empty-chunk" }),
+                format!("rot={rot:?} chunks={names:?}: direct mode leaves files of {:?} bytes, the size criterion (N={N}) says {:?}", got.iter().map(|g| g.len()).collect::<Vec<_>>(), model.iter().map(Vec::len).collect::<Vec<_>>()),
+                c,
+            ));
+        }
+    }
     for mode in all_modes {
         for eager in [false, true] {
             if !mode.is_async() && eager {
